@@ -28,7 +28,18 @@ RUNAWAY = 500      # a correct run starts at most one timer per entered state
 
 
 class HandlerError(Exception):
-    pass
+    """raised by an on_timeout handler"""
+
+
+class CallbackError(Exception):
+    """raised by an on_enter / on_exit callback"""
+
+
+class Cycle(Exception):
+    """on_enter callbacks trigger each other for ever"""
+
+
+MAX_CHAIN = 4
 
 
 # ---------------------------------------------------------------------------------------------
@@ -36,7 +47,9 @@ class HandlerError(Exception):
 # ---------------------------------------------------------------------------------------------
 # case = {cls, queued, send_event, on_exc, async_cbs, states: [node], transitions: [{ev, src, dst}],
 #         models: [[m, initial node id]], history: [['tick', [[m, e], ...]] | ['ev', m, e]]}
-# node = {id, timeout, ncb, action, raises, children: [node], initial: child id | None}
+# node = {id, timeout, ncb, action, raises, children: [node], initial: child id | None,
+#         cb_enter: None | ['plain'] | ['raise'] | ['trigger', e]   (an on_enter callback besides the probe)
+#         cb_exit:  None | 'plain' | 'raise'}
 
 def walk(nodes, path=()):
     for n in nodes:
@@ -70,43 +83,74 @@ def leaf_closure(nd, sid):
 
 
 def resolve_table(case):
-    """what the engine is expected to do: (leaf state, event) -> ('stay',) | ('move', exits, enters, dest).
-    Flat machines: the first transition registered for (source, event).  Hierarchical machines (no
-    parallel states, transitions declared at root level with full names): the transition of the deepest
-    active state that has one; the longest active prefix of the destination path stays, everything active
-    below it is exited leaf first, the rest of the destination path and its chain of initial children is
-    entered; a destination that is itself active is exited and re-entered."""
+    """what the engine is expected to do: (leaf state, event) -> ('stay',) | ('move', prog, dest, raises) where
+    prog is the sequence of Timeout.exit (0, s) / Timeout.enter (1, s) calls.
+    Flat machines: the first transition registered for (source, event).  Hierarchical machines (no parallel
+    states, transitions declared at root level with full names): the transition of the deepest active state
+    that has one; the longest active prefix of the destination path stays, everything active below it is exited
+    leaf first, the rest of the destination path and its chain of initial children is entered; a destination
+    that is itself active is exited and re-entered.  The model's state value is set between the exits and the
+    enters.  An on_exit / on_enter callback that raises cuts the sequence short right after its state's
+    exit / enter call; an on_enter callback of the last entered state that triggers an event continues the
+    sequence with that event's calls (at once when unqueued, right after the transition when queued — the same
+    sequence).  raises: an exception leaves the trigger call (a callback raised, no on_exception handler)."""
     pt = paths(case)
     nd = nodes(case)
-    table = {}
     trans = {}
     for t in case['transitions']:
         trans.setdefault((t['src'], t['ev']), t)
     events = sorted(set(t['ev'] for t in case['transitions']))
-    for sid, p in pt.items():
+
+    def expand(sid, e, depth):
+        p = pt[sid]
+        t = None
+        for k in range(len(p), 0, -1):
+            t = trans.get((p[k - 1], e))
+            if t is not None:
+                break
+        if t is None:
+            return None
+        if t['dst'] is None:
+            return ('stay',)
+        d = pt[t['dst']]
+        r = 0
+        while r < len(d) and r < len(p) and d[r] == p[r]:
+            r += 1
+        if r == len(d):
+            r -= 1
+        exits = [p[k - 1] for k in range(len(p), r, -1)]
+        enters = [d[k - 1] for k in range(r + 1, len(d) + 1)]
+        enters += leaf_closure(nd, d[-1])
+        prog = []
+        for x in exits:
+            prog.append((0, x))
+            if nd[x].get('cb_exit') == 'raise':
+                return ('move', prog, sid, True)
+        dest = enters[-1]
+        for n in enters:
+            prog.append((1, n))
+            if (nd[n].get('cb_enter') or [None])[0] == 'raise':
+                return ('move', prog, dest, True)
+        cb = nd[dest].get('cb_enter')
+        if cb and cb[0] == 'trigger':
+            if depth >= MAX_CHAIN:
+                raise Cycle()
+            sub = expand(dest, cb[1], depth + 1)
+            if sub is not None and sub[0] == 'move':
+                return ('move', prog + sub[1], sub[2], sub[3])
+        return ('move', prog, dest, False)
+
+    table = {}
+    for sid in pt:
         if nd[sid]['children'] and nd[sid]['initial'] is not None:
             continue          # never a model's state value
         for e in events:
-            t = None
-            for k in range(len(p), 0, -1):
-                t = trans.get((p[k - 1], e))
-                if t is not None:
-                    break
-            if t is None:
+            st = expand(sid, e, 0)
+            if st is None:
                 continue
-            if t['dst'] is None:
-                table[(sid, e)] = ('stay',)
-                continue
-            d = pt[t['dst']]
-            r = 0
-            while r < len(d) and r < len(p) and d[r] == p[r]:
-                r += 1
-            if r == len(d):
-                r -= 1
-            exits = [p[k - 1] for k in range(len(p), r, -1)]
-            enters = [d[k - 1] for k in range(r + 1, len(d) + 1)]
-            enters += leaf_closure(nd, d[-1])
-            table[(sid, e)] = ('move', exits, enters, enters[-1])
+            if st[0] == 'move':
+                st = ('move', st[1], st[2], st[3] and not case['on_exc'])
+            table[(sid, e)] = st
     return table
 
 
@@ -124,7 +168,10 @@ def enc_run(case):
         if st[0] == 'stay':
             out += [s, e, 0, 0, 0, 0]
         else:
-            out += [s, e, 1, len(st[1])] + st[1] + [len(st[2])] + st[2] + [st[3]]
+            out += [s, e, 1, len(st[1])]
+            for k, x in st[1]:
+                out += [k, x]
+            out += [st[2], 1 if st[3] else 0]
     nd_ = nodes(case)
     out.append(len(case['models']))
     for m, init in case['models']:
@@ -161,9 +208,10 @@ def parse_run(ans):
     nums = [int(x) for x in toks[2:2 + 3 * n]]
     recs = [tuple(nums[i:i + 3]) for i in range(0, 3 * n, 3)]
     rest = toks[2 + 3 * n:]
-    if len(rest) != 4 or rest[0] != 'L' or rest[2] != 'X':
+    if len(rest) < 5 or rest[0] != 'L' or rest[2] != 'X' or rest[4] != 'C':
         raise common.MachineryError('c17run answered %r' % ans[:200])
-    return recs, rest[1] == '1', rest[3] == '1'
+    curs = [int(x) for x in rest[5:]]
+    return recs, rest[1] == '1', rest[3] == '1', dict(zip(curs[0::2], curs[1::2]))
 
 
 def show(recs):
@@ -196,9 +244,15 @@ class Run(object):
 
 
 def _state_defs(case, ns, is_async):
+    """enter / exit are observed by the probe mixin (no callback needed, so a state may have none at all);
+    on_enter / on_exit callbacks exist only where the case asks for one"""
     out = []
     for n in ns:
-        d = {'name': 'S%d' % n['id'], 'on_enter': ['rec_enter_%d' % n['id']], 'on_exit': ['rec_exit_%d' % n['id']]}
+        d = {'name': 'S%d' % n['id']}
+        if n.get('cb_enter'):
+            d['on_enter'] = ['cb_enter_%d' % n['id']]
+        if n.get('cb_exit'):
+            d['on_exit'] = ['cb_exit_%d' % n['id']]
         if n['timeout'] > 0:
             d['timeout'] = n['timeout']
             d['on_timeout'] = ['rec_pre_%d' % n['id']] * (n['ncb'] - 1) + ['rec_timeout_%d' % n['id']]
@@ -213,6 +267,36 @@ def _state_defs(case, ns, is_async):
     return out
 
 
+def _probe_class(run, is_async):
+    """state mixin placed in front of Timeout / AsyncTimeout: records `enter` / `exit` synchronously when the
+    engine calls the state's enter / exit, then hands on to the timeout feature (no suspension point added)"""
+    from transitions.core import State
+    from transitions.extensions.asyncio import AsyncState
+
+    def sid_of(state):
+        return int(state.name.rsplit('_', 1)[-1][1:])
+
+    if is_async:
+        class Probe(AsyncState):
+            async def enter(self, event_data):
+                run.rec(ENTER, event_data.model.idx, sid_of(self))
+                await super(Probe, self).enter(event_data)
+
+            async def exit(self, event_data):
+                run.rec(EXIT, event_data.model.idx, sid_of(self))
+                await super(Probe, self).exit(event_data)
+    else:
+        class Probe(State):
+            def enter(self, event_data):
+                run.rec(ENTER, event_data.model.idx, sid_of(self))
+                super(Probe, self).enter(event_data)
+
+            def exit(self, event_data):
+                run.rec(EXIT, event_data.model.idx, sid_of(self))
+                super(Probe, self).exit(event_data)
+    return Probe
+
+
 def _model_class(case, run, is_async):
     nd = nodes(case)
     send_event = case['send_event']
@@ -223,13 +307,33 @@ def _model_class(case, run, is_async):
             self.idx = idx
             self.raised = None
 
-    def mk_plain(kind, sid):
+    def mk_pre(sid):
         if async_cbs:
             async def f(self, *a, **k):
-                run.rec(kind, self.idx, sid)
+                run.rec('pre', self.idx, sid)
         else:
             def f(self, *a, **k):
-                run.rec(kind, self.idx, sid)
+                run.rec('pre', self.idx, sid)
+        return f
+
+    def mk_cb(kind, sid, ev):
+        """an on_enter / on_exit callback: does nothing, raises, or triggers an event on its own model"""
+        if is_async and (async_cbs or kind == 'trigger'):
+            async def f(self, *a, **k):
+                if kind == 'raise':
+                    self.raised = ('cb', sid, CallbackError('S%d' % sid))
+                    raise self.raised[2]
+                if kind == 'trigger':
+                    res = self.trigger('e%d' % ev)
+                    if inspect.isawaitable(res):
+                        await res
+        else:
+            def f(self, *a, **k):
+                if kind == 'raise':
+                    self.raised = ('cb', sid, CallbackError('S%d' % sid))
+                    raise self.raised[2]
+                if kind == 'trigger':
+                    self.trigger('e%d' % ev)
         return f
 
     def check_event_data(self, sid, a):
@@ -245,40 +349,52 @@ def _model_class(case, run, is_async):
                 run.rec(FIRED, self.idx, sid)
                 check_event_data(self, sid, a)
                 if n['action'] is not None:
-                    res = self.trigger('e%d' % n['action'])
-                    if inspect.isawaitable(res):      # an event name no transition uses answers False at once
-                        await res
+                    try:
+                        res = self.trigger('e%d' % n['action'])
+                        if inspect.isawaitable(res):      # an event name no transition uses answers False at once
+                            await res
+                    except CallbackError:
+                        run.rec(RAISED, self.idx, sid)    # the handler ends with the error of the event it triggered
+                        raise
                 if n['raises']:
                     run.rec(RAISED, self.idx, sid)
-                    self.raised = (sid, HandlerError('S%d' % sid))
-                    raise self.raised[1]
+                    self.raised = ('timeout', sid, HandlerError('S%d' % sid))
+                    raise self.raised[2]
                 run.rec(FIRED_END, self.idx, sid)
         else:
             def f(self, *a, **k):
                 run.rec(FIRED, self.idx, sid)
                 check_event_data(self, sid, a)
                 if n['action'] is not None:
-                    self.trigger('e%d' % n['action'])
+                    try:
+                        self.trigger('e%d' % n['action'])
+                    except CallbackError:
+                        run.rec(RAISED, self.idx, sid)
+                        raise
                 if n['raises']:
                     run.rec(RAISED, self.idx, sid)
-                    self.raised = (sid, HandlerError('S%d' % sid))
-                    raise self.raised[1]
+                    self.raised = ('timeout', sid, HandlerError('S%d' % sid))
+                    raise self.raised[2]
                 run.rec(FIRED_END, self.idx, sid)
         return f
 
     def rec_exception(self, *a, **k):
-        sid, err = self.raised if self.raised else (0, None)
+        kind, sid, err = self.raised if self.raised else (None, 0, None)
+        self.raised = None
         if send_event:
             ed = a[0] if a else None
             if ed is None or ed.error is not err:
-                run.bad.append('on_exception did not receive the error raised by the timeout handler')
-        self.raised = None
-        run.rec(ROUTED, self.idx, sid)
+                run.bad.append('on_exception did not receive the error that was raised')
+        if kind == 'timeout':        # errors of on_enter / on_exit callbacks are not the timeout feature's business
+            run.rec(ROUTED, self.idx, sid)
 
     for sid in nd:
-        setattr(Model, 'rec_enter_%d' % sid, mk_plain(ENTER, sid))
-        setattr(Model, 'rec_exit_%d' % sid, mk_plain(EXIT, sid))
-        setattr(Model, 'rec_pre_%d' % sid, mk_plain('pre', sid))
+        n = nd[sid]
+        if n.get('cb_enter'):
+            setattr(Model, 'cb_enter_%d' % sid, mk_cb(n['cb_enter'][0], sid, (n['cb_enter'] + [None])[1]))
+        if n.get('cb_exit'):
+            setattr(Model, 'cb_exit_%d' % sid, mk_cb(n['cb_exit'], sid, None))
+        setattr(Model, 'rec_pre_%d' % sid, mk_pre(sid))
         setattr(Model, 'rec_timeout_%d' % sid, mk_timeout(sid))
     Model.rec_exception = rec_exception
     return Model
@@ -294,7 +410,7 @@ def _machine(case, run):
     is_async = case['cls'] in ASYNC_CLASSES
     feature = AsyncTimeout if is_async else Timeout
 
-    @add_state_features(feature)
+    @add_state_features(_probe_class(run, is_async), feature)
     class TimeoutMachine(base):
         pass
 
@@ -313,6 +429,15 @@ def _machine(case, run):
     for mo, (_m, init) in zip(models, case['models']):
         machine.add_model(mo, initial=name_of(pt[init]))
     return machine, models
+
+
+def _sync_trigger(run, model, name):
+    try:
+        run.results.append(model.trigger(name))
+    except CallbackError:
+        run.results.append('raised')
+    except Exception as err:        # noqa
+        run.bad.append('trigger %s raised %r' % (name, err))
 
 
 def run_threads(case):
@@ -334,10 +459,10 @@ def run_threads(case):
             if op[0] == 'tick':
                 clock.tick()
                 for m, e in op[1]:
-                    run.results.append(models[m].trigger('e%d' % e))
+                    _sync_trigger(run, models[m], 'e%d' % e)
                 clock.fire_due()
             else:
-                run.results.append(models[op[1]].trigger('e%d' % op[2]))
+                _sync_trigger(run, models[op[1]], 'e%d' % op[2])
     real = [t for t in threading.enumerate() if isinstance(t, threading.Timer)]
     for t in real:
         t.cancel()
@@ -348,17 +473,25 @@ def run_threads(case):
                                     '(transitions.extensions.states no longer uses its module global `Timer`)')
     run.handler_errors = [t.error for t in clock.timers if t.error is not None]
     for err in run.handler_errors:
-        if not isinstance(err, HandlerError):
+        if not isinstance(err, (HandlerError, CallbackError)):
             run.bad.append('timer function raised %r' % (err,))
     run.final = [getattr(mo, 'state') for mo in models]
     return run
 
 
-async def _await_trigger(model, name):
-    res = model.trigger(name)
-    if inspect.isawaitable(res):
-        res = await res
-    return res
+async def _await_triggers(run, pairs):
+    """the events of one instant, one after the other in ONE task: nothing lets the loop run in between
+    except what the library itself awaits"""
+    for model, name in pairs:
+        try:
+            res = model.trigger(name)
+            if inspect.isawaitable(res):
+                res = await res
+            run.results.append(res)
+        except CallbackError:
+            run.results.append('raised')
+        except Exception as err:        # noqa
+            run.bad.append('trigger %s raised %r' % (name, err))
 
 
 def run_async(case):
@@ -373,7 +506,10 @@ def run_async(case):
     loop.on_tick = on_tick
     try:
         machine, models = _machine(case, run)
-        for op in case['history']:
+        hist = case['history']
+        k = 0
+        while k < len(hist):
+            op = hist[k]
             if len(asyncio.all_tasks(loop)) > RUNAWAY:
                 run.bad.append('more than %d tasks are pending' % RUNAWAY)
                 break
@@ -381,16 +517,19 @@ def run_async(case):
                 if op[1]:
                     raise common.MachineryError('early events are not realisable under asyncio')
                 loop.settle(loop.time() + 1)
-            else:
-                task = loop.run_op(_await_trigger(models[op[1]], 'e%d' % op[2]))
-                if not task.done():
-                    run.bad.append('trigger did not complete at its instant')
-                elif task.cancelled():
-                    run.bad.append('trigger task was cancelled')
-                elif task.exception() is not None:
-                    run.bad.append('trigger raised %r' % (task.exception(),))
-                else:
-                    run.results.append(task.result())
+                k += 1
+                continue
+            group = [op]
+            while case.get('batch') and k + len(group) < len(hist) and hist[k + len(group)][0] == 'ev':
+                group.append(hist[k + len(group)])
+            k += len(group)
+            task = loop.run_op(_await_triggers(run, [(models[o[1]], 'e%d' % o[2]) for o in group]))
+            if not task.done():
+                run.bad.append('trigger did not complete at its instant')
+            elif task.cancelled():
+                run.bad.append('trigger task was cancelled')
+            elif task.exception() is not None:
+                run.bad.append('trigger raised %r' % (task.exception(),))
         run.final = [getattr(mo, 'state') for mo in models]
         type(machine).async_tasks.clear()
     finally:
@@ -470,24 +609,16 @@ def double_fire(recs, shared_queue):
     return False
 
 
-def expected_final(case, mrecs):
-    nd = nodes(case)
-    cur = {}
-    for m, init in case['models']:
-        cl = leaf_closure(nd, init)
-        cur[m] = cl[-1] if cl else init
-    for k, m, s in mrecs:
-        if k == ENTER:
-            cur[m] = s
+def expected_final(case, curs):
     pt = paths(case)
-    return [name_of(pt[cur[m]]) for m, _i in case['models']]
+    return [name_of(pt[curs[m]]) for m, _i in case['models']]
 
 
 def judge(case, model_ans, mon_ans, run):
     """-> (failures, flags)"""
     out = []
     flags = {}
-    mrecs, leaked, tie = parse_run(model_ans)
+    mrecs, leaked, tie, curs = parse_run(model_ans)
     if leaked:
         raise common.MachineryError('generated case enters an active timeout state without leaving it: %r' % (case,))
     is_async = case['cls'] in ASYNC_CLASSES
@@ -513,7 +644,7 @@ def judge(case, model_ans, mon_ans, run):
                            signature='C17.monitor'))
     if not unordered:
         a, b = (per_model_canon(mrecs), per_model_canon(recs)) if is_async else (mrecs, recs)
-        fin = expected_final(case, mrecs)
+        fin = expected_final(case, curs)
         if a != b or fin != list(run.final):
             k = next((i for i, (x, y) in enumerate(zip(a, b)) if x != y), min(len(a), len(b)))
             out.append(Failure('correspondence', 'trace_eq', case, {
@@ -602,6 +733,18 @@ def gen_case(rng, cls):
         if nested and depth < 2 and rng.random() < (0.45 if depth == 0 else 0.25):
             n['children'] = [mk_node(depth + 1) for _ in range(rng.randint(1, 2))]
             n['initial'] = rng.choice(n['children'])['id']
+        # callbacks besides the probe: most states have none at all (then nothing suspends under asyncio)
+        r = rng.random()
+        if r < 0.14 and not n['children'] and depth == 0:     # (see assumptions: not from nested states)
+            n['cb_enter'] = ['trigger', rng.randrange(n_events)]     # moves on (or not) from within on_enter
+        elif r < 0.21:
+            n['cb_enter'] = ['raise']
+        elif r < 0.40:
+            n['cb_enter'] = ['plain']
+        else:
+            n['cb_enter'] = None
+        r = rng.random()
+        n['cb_exit'] = 'raise' if r < 0.06 else ('plain' if r < 0.25 else None)
         return n
 
     states = [mk_node(0) for _ in range(rng.randint(2, 4))]
@@ -629,7 +772,14 @@ def gen_case(rng, cls):
         'send_event': rng.random() < 0.5,
         'on_exc': rng.random() < 0.6,
         'async_cbs': rng.random() < 0.5,
+        'batch': rng.random() < 0.6,        # asyncio: events of one instant are awaited back to back in one task
         'transitions': transitions, 'models': models, 'history': []})
+    try:
+        resolve_table(case)
+    except Cycle:
+        for n in nd.values():
+            if n['cb_enter'] and n['cb_enter'][0] == 'trigger':
+                n['cb_enter'] = ['plain']
     # history: (delay, event) pairs — delays below / equal to / above the timeouts in play
     touts = sorted(set(n['timeout'] for n in nd.values() if n['timeout'])) or [2]
     hist = []
@@ -644,6 +794,17 @@ def gen_case(rng, cls):
             hist.append(['ev', m, e])
         elif rng.random() < 0.3:       # a second early event at the same instant
             hist[-1][1].append([rng.randrange(n_models), rng.randrange(n_events)])
+    if rng.random() < 0.5:
+        # enter, wait a little, leave and come back within one instant, wait less than the timeout, leave, wait
+        m = rng.randrange(n_models)
+        t = rng.choice(touts)
+        hist.append(['ev', m, rng.randrange(n_events)])
+        hist += [['tick', []] for _ in range(rng.randint(1, max(1, t - 1)))]
+        for _ in range(rng.randint(1, 3)):
+            hist.append(['ev', m, rng.randrange(n_events)])
+        hist += [['tick', []] for _ in range(rng.randint(1, max(1, t - 1)))]
+        hist.append(['ev', m, rng.randrange(n_events)])
+        hist += [['tick', []] for _ in range(t + 1)]
     for _ in range(rng.randint(1, 6)):
         hist.append(['tick', []])
     case['history'] = hist
@@ -739,14 +900,14 @@ def shrink_steps(case):
             c['transitions'] = [t for t in c['transitions'] if t['src'] not in gone and t['dst'] not in gone]
             if c['transitions']:
                 yield c
-    for key, val in (('queued', False), ('send_event', False), ('on_exc', False), ('async_cbs', False)):
-        if case[key] != val:
+    for key, val in (('queued', False), ('send_event', False), ('on_exc', False), ('async_cbs', False), ('batch', False)):
+        if case.get(key, val) != val:
             c = copy.deepcopy(case)
             c[key] = val
             yield c
     for sid in sorted(nodes(case)):
-        for key, val in (('raises', False), ('action', None), ('ncb', 1)):
-            if nodes(case)[sid][key] != val:
+        for key, val in (('raises', False), ('action', None), ('ncb', 1), ('cb_enter', None), ('cb_exit', None)):
+            if nodes(case)[sid].get(key, val) != val:
                 c = copy.deepcopy(case)
                 nodes(c)[sid][key] = val
                 yield c
@@ -787,8 +948,9 @@ class C17(runner.Check):
              "virtual clock, not verified.",
         note="Trusted: Lean kernel, hand-written model Model/Timeout.lean and acceptor Model/Spec/C17.lean, "
              "harness/vclock.py (virtual Timer with threading.Timer's start/cancel/is_alive semantics, "
-             "SelectorEventLoop with a jumping clock), the harness's expectation of which states an event exits and "
-             "enters; asyncio.shield/cancel/gather semantics are exercised, not modelled. Same-instant races under "
+             "SelectorEventLoop with a jumping clock), the harness's expectation of which Timeout.exit/enter calls an "
+             "event causes (incl. re-entrant triggers from on_enter callbacks and callbacks that raise), the probe "
+             "state mixin that records enter/exit; asyncio.shield/cancel/gather semantics are exercised, not modelled. Same-instant races under "
              "asyncio (an exit at the very instant a timeout is due) are not judged.",
         technique="Lean 4 proof (simulation of a property acceptor, induction over timed histories) + differential "
                   "correspondence under a virtual clock + verified trace monitor")
@@ -799,18 +961,23 @@ class C17(runner.Check):
                 'TM.C17_unbracketed_counterexample')
     rule = ('random machines with Timeout (Machine, HierarchicalMachine, LockedMachine) or AsyncTimeout (AsyncMachine, '
             'HierarchicalAsyncMachine): 2-4 states (nested up to depth 3, compound states with timeouts of their own), '
-            'timeouts 0-5, 1-2 on_timeout callbacks that may trigger an event or raise, 2-3 events incl. reflexive '
-            'and internal transitions, 1-3 models, queued or not, send_event on/off; histories of 3-9 (delay, event) '
+            'timeouts 0-5, 1-2 on_timeout callbacks that may trigger an event or raise, states with no on_enter/on_exit '
+            'callback at all / plain ones / on_enter callbacks that trigger an event re-entrantly (unqueued and queued) '
+            '/ on_enter and on_exit callbacks that raise (with and without on_exception), 2-3 events incl. reflexive '
+            'and internal transitions, 1-3 models, queued or not, send_event on/off; under asyncio the events of one '
+            'instant are awaited back to back in one task (no idle loop in between) or one by one; histories of 3-9 (delay, event) '
             'pairs with delays below / equal to / above the timeouts, for the threaded classes also events that win '
             'the tie against a timer due at the same instant; a case is non-trivial when at least one timeout fired '
             'and at least one pending timeout was cancelled by an exit; distinct = different case description')
     trusted = ('hand-written model lean/Model/Timeout.lean tied to /repo by timed-trace equality on every generated case',
                'acceptor lean/Model/Spec/C17.lean read as the property statement',
                'harness/vclock.py: virtual Timer (replaces transitions.extensions.states.Timer) and virtual-clock event loop',
-               'harness/props/c17.py resolve_table: which states an event exits/enters (flat and non-parallel nested)')
+               'harness/props/c17.py resolve_table: the sequence of Timeout.exit/enter calls an event causes (flat and '
+               'non-parallel nested; re-entrant on_enter triggers, raising callbacks)',
+               'the probe state mixin (records enter/exit, delegates to the timeout feature)')
 
-    quick = (48, 400)
-    thorough = (128, 2000)
+    quick = (48, 250)
+    thorough = (128, 1200)
 
     def explore(self, tier, seed):
         nch, per = self.quick if tier == 'quick' else self.thorough
@@ -886,8 +1053,15 @@ class C17(runner.Check):
             'are applied after the loop has gone idle at that instant (timer first), and cases where a timeout handler '
             'exits a state whose own timeout is due at the same instant (two timers of one model racing) are not '
             'judged (ambiguity resolved towards not alarming)',
-            'callbacks other than on_timeout handlers do not raise and do not trigger events (C04/C05); on_timeout '
-            'handlers trigger at most one event, on their own model',
+            'on_enter callbacks may trigger one event on their own model (re-entrant; from top-level states only: a '
+            're-entrant trigger from the on_enter callback of a NESTED state makes the hierarchical engine compute '
+            'doubled state names - "State S5_S7_S5_S7_S9 is not a registered state" - which is not the timeout '
+            "feature's business), on_enter / on_exit callbacks may raise; on_exit callbacks do not trigger events; "
+            'on_timeout handlers trigger at most one event, on their own model',
+            'a state counts as left when the engine has called its exit (the probe records it), also when an on_exit '
+            'callback then raises and the model keeps the state value: the timer is cancelled by then and does not fire',
+            'enter / exit are observed by a state mixin in front of Timeout / AsyncTimeout (add_state_features(Probe, '
+            'Timeout)) that records and delegates, so that states without any callback can be observed',
             'the initial state of a model is set, not entered: no timer runs for it until it is (re-)entered',
             'hierarchical cases have no parallel states and declare transitions at root level with full state names',
         ]
